@@ -1,14 +1,14 @@
 (* C01 — config deduplication never changes what a launch observes.
    Only theorem statements closed by `exact`, each followed by Print Assumptions.
 
-   Proved here: the field-dropping rewrite (SimplifyRedundantSetupCalls) — for EVERY selection of
-   setups (one, several, all: hence any finite sequence of applications against the same table),
-   in every program context, for every certified table, oracle, argument list, trip count and
-   branch outcome.  The real rewrite is this map followed by renaming the replaced out-state
-   (checked per recorded rewrite by L1, `simplify_is_map`).  The other four patterns
-   (merge / elide / pull-out-of-loop / hoist-into-if) are modelled in Model/AccDedup.v and tied to the code by
-   exact per-rewrite correspondence (L1) and trace comparison of real before/after IR on the Coq
-   machine (L2); their preservation theorems are not proved in this revision. *)
+   Proved here, each in every program context, for every oracle, argument list, trip count and
+   branch outcome: the four rewrites SimplifyRedundantSetupCalls (needs the certified table of C07),
+   MergeSetupOps, ElideEmptySetupOps, HoistSetupCallsIntoConditionals in the form the pass performs
+   them ("guarded rule models" of Model/AccRules.v; `guarded model = real rewrite` and the decidable
+   side conditions are evaluated per recorded real rewrite by L1), and any finite sequence of them.
+   NOT proved: PullSetupOpsOutOfLoops (model Model/AccDedup.v rule_pull; tied to the code by exact
+   per-rewrite correspondence (L1) and trace comparison of the real before/after IR (L2) only; see
+   C01_pull_refuted).  The first-round structural-map theorems about simplify/elide are kept below. *)
 From Snax Require Import Base.Prelude Model.AccIR Model.AccSem Model.AccInfer Model.AccDedup
   Model.AccWeave Model.AccRules
   Proofs.AccSemProofs Proofs.AccInferProofs Proofs.AccDedupProofs Proofs.AccRenameProofs
@@ -62,6 +62,69 @@ Theorem C01_hoist_rule :
   forall orc args, trace_strong (run orc p args) (run orc p' args).
 Proof. intros G fresh tg p p' H Hh orc args. exact (rule_hoist_g_preserves G orc fresh tg p p' args H Hh). Qed.
 Print Assumptions C01_hoist_rule.
+
+(* ---- non-vacuity of the rule theorems: each guarded rule fires on a small program and its decidable
+   hypotheses hold there (L1 evaluates the same two facts on every recorded real rewrite) --------------- *)
+Definition c01_merge_ex : prog :=
+  mkProg [0%nat; 1%nat]
+   [SSetup 0%nat 2%nat None [(0%nat, 0%nat)]; SPure 3%nat (PConst 1);
+    SSetup 0%nat 4%nat (Some 2%nat) [(1%nat, 1%nat); (0%nat, 3%nat)];
+    SLaunch 0%nat 5%nat 4%nat []; SAwait 0%nat 5%nat].
+Example C01_merge_nonvacuous :
+  exists p', rule_merge_g [6%nat] 4%nat c01_merge_ex = Some p' /\ p' <> c01_merge_ex /\
+  merge_hyp (prog_ghosts c01_merge_ex ++ [6%nat]) [6%nat] 4%nat c01_merge_ex = true.
+Proof. eexists. split; [reflexivity|]. split; [discriminate|reflexivity]. Qed.
+Print Assumptions C01_merge_nonvacuous.
+
+(* the removed setup's input state is a loop-carried block argument *)
+Definition c01_elide_ex : prog :=
+  mkProg [0%nat; 1%nat; 2%nat; 3%nat; 4%nat]
+   [SSetup 0%nat 5%nat None [(0%nat, 0%nat)];
+    SFor 6%nat 2%nat 3%nat 4%nat [(7%nat, 5%nat, TState 0%nat)] [10%nat]
+      [SSetup 0%nat 8%nat (Some 7%nat) []; SLaunch 0%nat 9%nat 8%nat []; SAwait 0%nat 9%nat] [8%nat]].
+Example C01_elide_nonvacuous :
+  exists p', rule_elide_g 8%nat c01_elide_ex = Some p' /\ p' <> c01_elide_ex /\
+  elide_hyp (prog_ghosts c01_elide_ex) 8%nat c01_elide_ex = true.
+Proof. eexists. split; [reflexivity|]. split; [discriminate|reflexivity]. Qed.
+Print Assumptions C01_elide_nonvacuous.
+
+Definition c01_hoist_ex : prog :=
+  mkProg [0%nat; 1%nat; 2%nat; 3%nat]
+   [SSetup 0%nat 4%nat None [(0%nat, 0%nat); (1%nat, 1%nat)];
+    SIf 3%nat [(7%nat, TState 0%nat)] [SSetup 0%nat 5%nat (Some 4%nat) [(0%nat, 2%nat)]] [5%nat]
+                                      [SSetup 0%nat 6%nat (Some 4%nat) [(1%nat, 2%nat)]] [6%nat];
+    SPure 12%nat (PConst 5);
+    SSetup 0%nat 8%nat (Some 7%nat) [(0%nat, 1%nat)]; SLaunch 0%nat 9%nat 8%nat []; SAwait 0%nat 9%nat].
+Example C01_hoist_nonvacuous :
+  let G := prog_ghosts c01_hoist_ex ++ [10%nat; 11%nat] in
+  exists p', rule_hoist_g G [10%nat; 11%nat] 8%nat c01_hoist_ex = Some p' /\ p' <> c01_hoist_ex /\
+  hoist_hyp G [10%nat; 11%nat] 8%nat c01_hoist_ex = true.
+Proof. eexists. split; [reflexivity|]. split; [discriminate|reflexivity]. Qed.
+Print Assumptions C01_hoist_nonvacuous.
+
+(* F22b (repaired in /repo, second part of the F22 repair): a setup whose operand is a RESULT OF THE
+   PRODUCING scf.if must not be hoisted into it.  The model of the repaired pattern declines; the program
+   the un-repaired pattern produced (clones inside the scf.if read value 6 before it is defined) shows a
+   different register at the launch. *)
+Definition c01_ifres : prog :=
+  mkProg [0%nat; 1%nat; 2%nat]
+   [SSetup 0%nat 3%nat None [(0%nat, 0%nat)];
+    SIf 2%nat [(6%nat, TInt); (7%nat, TState 0%nat)]
+      [SSetup 0%nat 4%nat (Some 3%nat) [(0%nat, 1%nat)]] [0%nat; 4%nat]
+      [SSetup 0%nat 5%nat (Some 3%nat) [(0%nat, 0%nat)]] [1%nat; 5%nat];
+    SSetup 0%nat 8%nat (Some 7%nat) [(0%nat, 6%nat)]; SLaunch 0%nat 9%nat 8%nat []; SAwait 0%nat 9%nat].
+Definition c01_ifres_unrepaired : prog :=
+  mkProg [0%nat; 1%nat; 2%nat]
+   [SSetup 0%nat 3%nat None [(0%nat, 0%nat)];
+    SIf 2%nat [(6%nat, TInt); (7%nat, TState 0%nat)]
+      [SSetup 0%nat 4%nat (Some 3%nat) [(0%nat, 1%nat)]; SSetup 0%nat 10%nat (Some 4%nat) [(0%nat, 6%nat)]] [0%nat; 10%nat]
+      [SSetup 0%nat 5%nat (Some 3%nat) [(0%nat, 0%nat)]; SSetup 0%nat 11%nat (Some 5%nat) [(0%nat, 6%nat)]] [1%nat; 11%nat];
+    SLaunch 0%nat 9%nat 7%nat []; SAwait 0%nat 9%nat].
+Example C01_hoist_own_result_declined :
+  rule_hoist [10%nat; 11%nat] 8%nat c01_ifres = None /\
+  trace_sim_b (run (test_oracle 1) c01_ifres [7; 9; 1]) (run (test_oracle 1) c01_ifres_unrepaired [7; 9; 1]) = false.
+Proof. split; vm_compute; reflexivity. Qed.
+Print Assumptions C01_hoist_own_result_declined.
 
 (* rules_preserve_star, for the four proved rules: any finite sequence of applications in any order
    (driver-independent).  PullSetupOpsOutOfLoops is NOT a constructor of [step]: see below. *)
